@@ -38,7 +38,7 @@ def trimDot (s : Bytes) : Bytes := if s.getLast? = some 46 then s.dropLast else 
 /-- `FlatFileSplit` (`nil` for the empty list) -/
 def flatFileSplit (s : Bytes) : List Bytes :=
   let s := trimDot s
-  if s.isEmpty then [] else split (str "; ") s
+  if s.isEmpty then [] else split (bs "; ") s
 
 /-- `monthMap` -/
 def monthOf (s : Bytes) : Option Int :=
@@ -46,7 +46,7 @@ def monthOf (s : Bytes) : Option Int :=
     ["JAN", "Jan", "01"], ["FEB", "Feb", "02"], ["MAR", "Mar", "03"], ["APR", "Apr", "04"],
     ["MAY", "May", "05"], ["JUN", "Jun", "06"], ["JUL", "Jul", "07"], ["AUG", "Aug", "08"],
     ["SEP", "Sep", "09"], ["OCT", "Oct", "10"], ["NOV", "Nov", "11"], ["DEC", "Dec", "12"]]
-  match names.findIdx? fun ns => ns.any fun n => str n = s with
+  match names.findIdx? fun ns => ns.any fun n => bs n = s with
   | some i => some ((i : Int) + 1)
   | none => none
 
@@ -62,14 +62,14 @@ def asDate (s : Bytes) : Option Date :=
 
 /-- `AsMolecule` -/
 def isMolecule (s : Bytes) : Bool :=
-  s = str "DNA" || s = str "RNA" || s = str "AA" || s = str "ss-DNA" || s = str "ds-DNA"
+  s = bs "DNA" || s = bs "RNA" || s = bs "AA" || s = bs "ss-DNA" || s = bs "ds-DNA"
 
 def lowerByte (c : UInt8) : UInt8 := if isUpper c then c + 32 else c
 
 /-- `AsTopology` (`strings.ToLower` on ASCII) -/
 def asTopology (s : Bytes) : Option Int :=
   let l := s.map lowerByte
-  if l = str "linear" then some 0 else if l = str "circular" then some 1 else none
+  if l = bs "linear" then some 0 else if l = bs "circular" then some 1 else none
 
 /-- `Dictionary.Set` -/
 def dictSet : List (Bytes × Bytes) → Bytes → Bytes → List (Bytes × Bytes)
@@ -98,16 +98,16 @@ def locusParser : P Locus := do
     match ← attempt p with
     | some a => pure a
     | none => back
-  orBack (lit (str "LOCUS"))
+  orBack (lit (bs "LOCUS"))
   let sp1 ← spaces
   let name ← orBack (word notSpace)
   let _ ← spaces
   let length ← orBack int
   -- `pars.Any(" bp", " aa")`
   orBack (do
-    match ← attempt (lit (str " bp")) with
+    match ← attempt (lit (bs " bp")) with
     | some _ => pure ()
-    | none => lit (str " aa"))
+    | none => lit (bs " aa"))
   let _ ← spaces
   let mol ← orBack (word notSpace)
   let _ ← spaces
@@ -216,7 +216,7 @@ def patchFrames (rb joined : Bytes) : P Unit := do
 def definitionField (depth : Nat) (f : Fields) : P (Fields × Bool) := do
   push
   let body : P (Bytes × Nat × Bytes) := do
-    let _ ← fieldName (str "DEFINITION") depth
+    let _ ← fieldName (bs "DEFINITION") depth
     let rb := (← getS).rest
     let (b, k) ← fieldBody depth 10
     pure (b, k, rb)
@@ -232,11 +232,11 @@ def definitionField (depth : Nat) (f : Fields) : P (Fields × Bool) := do
     pure ({ f with definition := trimDot p }, true)
 
 def accessionField (depth : Nat) (f : Fields) : P (Fields × Bool) := do
-  let r ← mapped (genericField (str "ACCESSION") depth)
+  let r ← mapped (genericField (bs "ACCESSION") depth)
   pure ({ f with accession := r.1 }, true)
 
 def versionField (depth : Nat) (f : Fields) : P (Fields × Bool) := do
-  let r ← mapped (genericField (str "VERSION") depth)
+  let r ← mapped (genericField (bs "VERSION") depth)
   pure ({ f with version := r.1 }, true)
 
 /-- `genbankDBLinkPairParser`: `none` = error -/
@@ -259,7 +259,7 @@ def dblinkMore (depth : Nat) : Nat → Fields → P (Fields × Bool)
       | some (db, id) => dblinkMore depth k { f with dblink := dictSet f.dblink db id }
 
 def dblinkField (depth : Nat) (f : Fields) : P (Fields × Bool) := do
-  let _ ← fieldName (str "DBLINK") depth
+  let _ ← fieldName (bs "DBLINK") depth
   let l ← line
   match dblinkPair l with
   | none => fail
@@ -268,7 +268,7 @@ def dblinkField (depth : Nat) (f : Fields) : P (Fields × Bool) := do
     dblinkMore depth (n + 1) { f with dblink := dictSet f.dblink db id }
 
 def keywordsField (depth : Nat) (f : Fields) : P (Fields × Bool) := do
-  let _ ← fieldName (str "KEYWORDS") depth
+  let _ ← fieldName (bs "KEYWORDS") depth
   let (b, _) ← fieldBody depth 32
   pure ({ f with keywords := flatFileSplit b }, true)
 
@@ -281,9 +281,9 @@ def taxonMore (depth : Nat) : Nat → Bytes → P Bytes
     | none => pure acc
 
 def sourceField (depth : Nat) (f : Fields) : P (Fields × Bool) := do
-  let r ← mapped (genericField (str "SOURCE") depth)
+  let r ← mapped (genericField (bs "SOURCE") depth)
   let f := { f with species := r.1 }
-  match ← attempt (subfieldName (str "ORGANISM") depth r.2.2 true) with
+  match ← attempt (subfieldName (bs "ORGANISM") depth r.2.2 true) with
   | none => do pop; pure (f, false)
   | some _ =>
     let name ← line
@@ -294,7 +294,7 @@ def sourceField (depth : Nat) (f : Fields) : P (Fields × Bool) := do
 /-- one `genbankGenericSubfieldParser(name, depth).Map(…)` -/
 def refSub (name : String) (depth stale : Nat) : P Bytes :=
   mapped (do
-    subfieldName (str name) depth stale false
+    subfieldName (bs name) depth stale false
     let (b, _) ← fieldBody depth 10
     pure b)
 
@@ -327,7 +327,7 @@ def refSubfields (depth : Nat) : Nat → Nat → Reference → P Reference
     | none => pure r
 
 def referenceField (depth : Nat) (f : Fields) : P (Fields × Bool) := do
-  let _ ← fieldName (str "REFERENCE") depth
+  let _ ← fieldName (bs "REFERENCE") depth
   let number ← int
   let w := (itoaB number).length
   -- `strings.Repeat(" ", 3-len(strconv.Itoa(number)))`
@@ -341,11 +341,11 @@ def referenceField (depth : Nat) (f : Fields) : P (Fields × Bool) := do
   pure ({ f with references := f.references ++ [r] }, true)
 
 def commentField (depth : Nat) (f : Fields) : P (Fields × Bool) := do
-  let r ← mapped (genericField (str "COMMENT") depth)
+  let r ← mapped (genericField (bs "COMMENT") depth)
   pure ({ f with comments := f.comments ++ [r.1] }, true)
 
 def featuresField (reg : Registry) : P (List QFeature × Registry) := do
-  lit (str "FEATURES")
+  lit (bs "FEATURES")
   let _ ← line
   clear
   table reg
@@ -358,12 +358,12 @@ def untilColon : P Bytes := do
   | some i => do advanceN i; pure (s.rest.take i)
 
 def contigField (depth : Nat) (f : Fields) : P (Fields × Bool) := do
-  let _ ← fieldName (str "CONTIG") depth
-  lit (str "join(")
+  let _ ← fieldName (bs "CONTIG") depth
+  lit (bs "join(")
   let acc ← untilColon
   advance1
   let head ← int
-  lit (str "..")
+  lit (bs "..")
   let tail ← int
   lit [41]
   pure ({ f with contigAcc := acc, contigHead := head - 1, contigTail := tail }, true)
@@ -388,7 +388,7 @@ def slowLines (length : Int) (cap : Nat) : Nat → Nat → Bytes → Bytes → O
     else .ok (acc, st)
 
 def originField (length : Int) (depth : Nat) : P Bytes := do
-  let _ ← fieldName (str "ORIGIN") depth
+  let _ ← fieldName (bs "ORIGIN") depth
   let _ ← line
   clear
   let n := Origin.toOriginLength length
@@ -475,7 +475,7 @@ def tryAll (length : Int) (depth : Nat) (s : Sub) : P Step := do
 /-- `pars.Seq("//", pars.EOL)` -/
 def endMark : P Unit := do
   push
-  match ← attempt (lit (str "//")) with
+  match ← attempt (lit (bs "//")) with
   | none => do pop; fail
   | some _ =>
     match ← attempt eol with
